@@ -51,6 +51,14 @@ var (
 		Text: "every arithmetic/bitwise/concatenation arm computes receiver <op> right with the Go operator spelled like its token (token.tokens table), operands in order for non-commutative operators, in the documented result type (float if either is float, else char if either is char, else int); identity shortcut only when result == receiver's value; time arms via Add/Add(-)/Sub"}
 	rOPDOC = &Rule{Name: "OPDOC", Floor: 60, Fn: ruleOPDOC,
 		Text: "the set of (left type, operator, right type) arms implemented by the BinaryOp methods equals the set documented in docs/operators.md (two tabled undocumented arms)"}
+	rTWIN1 = &Rule{Name: "TWIN.1", Floor: 20, Fn: ruleTWIN1,
+		Text: "sibling agreement (alpha-normalised clone comparison): Array~ImmutableArray and Map~ImmutableMap on String/Equals/IndexGet/Iterate/IsFalsy/CanIterate/Copy; the four iterators' Next (and Key); the four index-clamping arms of OpSliceIndex"}
+	rFAM1 = &Rule{Name: "FAM.1", Floor: 8, Fn: ruleFAM1,
+		Text: "the three selector-assignment opcodes (global/local/free) gather selectors and value with identical code (alpha-normalised), pass (dst, value, selectors) to indexAssign and propagate its error"}
+	rCONV1 = &Rule{Name: "CONV.1", Floor: 14, Fn: ruleCONV1,
+		Text: "the case-type sets of ToInt/ToInt64/ToFloat64/ToRune/ToByteSlice/ToTime/ToString/ToBool equal the columns of the conversion table in docs/runtime-types.md; each conversion builtin is identity on its target type, converts args[0] with the matching To* function, builds the object from the converted value, and falls back to args[1] / undefined"}
+	rFALSY1 = &Rule{Name: "FALSY.1", Floor: 11, Fn: ruleFALSY1,
+		Text: "each IsFalsy is the predicate documented for its type in docs/runtime-types.md (after a small normalisation)"}
 )
 
 func allProperties() []*Property {
@@ -86,15 +94,19 @@ func allProperties() []*Property {
 		{ID: "C09",
 			Decided:    "no route from the storage of an immutable array/map to a write or to a mutable owner, in any function of any package (ownership rule on two fields).",
 			NotDecided: "immutability broken by embedder code or unsafe/reflect (neither occurs in the tree).",
-			Rules:      []*Rule{rIMM1, rIMM2, rIMM3, rIMM4, rCOPY1}},
+			Rules:      []*Rule{rIMM1, rIMM2, rIMM3, rIMM4, rCOPY1, rTWIN1}},
 		{ID: "C10",
 			Decided:    "Copy is deep and fresh for every container.",
 			NotDecided: "arithmetic results; NaN/±0 laws as numeric facts.",
-			Rules:      []*Rule{rCMP1, rCMP2, rCMP3, rCOPY1}},
+			Rules:      []*Rule{rCMP1, rCMP2, rCMP3, rCONV1, rFALSY1, rCOPY1, rTWIN1}},
 		{ID: "C15",
 			Decided:    "lock discipline of the accessor methods.",
 			NotDecided: "the history clause over all call sequences.",
 			Rules:      []*Rule{rLOCK}},
+		{ID: "C11",
+			Decided:    "the three variable families' selector-assignment arms are clones; operand decoding of all Local/Free/Global opcodes agrees with the encoder.",
+			NotDecided: "the metamorphic relation itself (needs executing transformed programs).",
+			Rules:      []*Rule{rFAM1, rCODEC3}},
 		{ID: "C12",
 			Decided:    "constant re-indexing covers exactly the opcodes through which the VM reads the constant pool, with the operand layout of the tables.",
 			NotDecided: "behavioural equality after de-duplication / gob round trip.",
